@@ -28,7 +28,7 @@ A = 'circus.arbiter:Arbiter.'
 
 
 def check(run, ctx):
-    run.each(ctx, [r1, r2, r3, r4, r5, r6, r7, r8])
+    run.each(ctx, [r1, r2, r3, r4, r5, r6, r7, r8, r9])
 
 
 def _yielded_call_nodes(ctx, f, target_keys):
@@ -507,3 +507,10 @@ def r6(run, ctx):
         ok = guarded(cfg, n, stopping, False)
         run.check('R6', ok, 'periodic check does nothing once the arbiter is stopping',
                   f, n.ast)
+
+
+def r9(run, ctx):
+    from rules import c14
+    run.share(ctx, c14.r4, 'R4', 'R9', 'the last-resort SIGKILL cannot be vetoed (shared with '
+              'C14 R4): a stop must not leave a survivor because a before_signal hook said no',
+              keep=lambda key: 'signal gate truth table' in key or 'SIGKILL compared' in key)
